@@ -31,6 +31,7 @@ type VkRS struct {
 	AfterMS int    `json:"after_ms"` // after the connection was opened
 	From    string `json:"from"`
 	Hop     int    `json:"hop"`
+	Wire    string `json:"wire,omitempty"` // hex of a marshalled NDP message to deliver instead of a plain RS
 }
 
 type VkIface struct {
@@ -217,7 +218,18 @@ func (c *vkNDPConn) ReadFrom() (ndp.Message, *ipv6.ControlMessage, netip.Addr, e
 				if hop == 0 {
 					hop = 255
 				}
-				return &ndp.RouterSolicitation{}, &ipv6.ControlMessage{HopLimit: hop}, netip.MustParseAddr(r.From).WithZone(c.iface), nil
+				var m ndp.Message = &ndp.RouterSolicitation{}
+				if r.Wire != "" {
+					b, err := hex.DecodeString(r.Wire)
+					if err == nil {
+						m, err = ndp.ParseMessage(b)
+					}
+					if err != nil {
+						panic("verif: scripted message does not parse: " + err.Error())
+					}
+				}
+				vkLog(VkEvent{Ev: "read", Iface: c.iface, Conn: c.id, Dst: r.From, Msg: m.Type().String(), Value: hop == 255})
+				return m, &ipv6.ControlMessage{HopLimit: hop}, netip.MustParseAddr(r.From).WithZone(c.iface), nil
 			}
 			if d := due.Sub(now); d < wait {
 				wait = d
